@@ -268,6 +268,9 @@ def check_payload(p):
 
 # ----------------------------------------------------------- static half (C10)
 def static_api_check():
+    """Every public method of Client that can put a script-management verb on the wire must refuse on a client that
+    never authenticated.  Candidates are found statically (source of the method, looking through decorator closures);
+    a candidate is only reported after it was *seen* writing the verb on an unauthenticated client."""
     from . import ms_impl as M
     probs, notes = [], []
     script_verbs = ["HAVESPACE", "LISTSCRIPTS", "GETSCRIPT", "PUTSCRIPT", "CHECKSCRIPT", "DELETESCRIPT",
@@ -280,17 +283,39 @@ def static_api_check():
             continue
         if name not in known:
             notes.append("public method %s is not covered by spec/MSSession.tla" % name)
-        inner = fn
-        wrapped = getattr(fn, "__name__", "") == "check" and fn.__closure__
-        if wrapped:
-            inner = [c.cell_contents for c in fn.__closure__ if callable(c.cell_contents)][0]
-        try:
-            src = inspect.getsource(inner)
-        except (OSError, TypeError):
+        if name == "connect":
             continue
-        sends = [v for v in script_verbs if ('"%s"' % v) in src or ("'%s'" % v) in src]
-        if sends and not wrapped:
-            probs.append("method %s can send %s but is not guarded by the authentication check" % (name, sends))
+        # dynamic confirmation: call it on a fresh, never-authenticated client wired to a scripted socket
+        try:
+            sig = inspect.signature(fn)
+        except (TypeError, ValueError):
+            continue
+        args = []
+        for pn, prm in list(sig.parameters.items())[1:]:
+            if prm.default is not inspect.Parameter.empty:
+                continue
+            ann = prm.annotation
+            args.append(1 if ann is int or "size" in pn else "x")
+        written = []
+
+        def server(w, sock):
+            written.append(w)
+            return b'OK\r\n'
+        c = M.ms.Client("h")
+        c.sock = M.FakeSocket(server)
+        caps = getattr(c, "_Client__capabilities", None)
+        for with_version in (False, True):
+            if isinstance(caps, dict):
+                caps.clear()
+                if with_version:
+                    caps["VERSION"] = "1.0"
+            M.call(getattr(c, name), *args)
+            if c.sock.pending:
+                c.sock._flush()
+        wire = b"".join(written).upper()
+        sent = [v for v in script_verbs if v.encode() in wire]
+        if sent:
+            probs.append("method %s wrote %s on a client that never authenticated" % (name, sent))
     return probs, notes
 
 
